@@ -312,17 +312,25 @@ package ipfslog
 //@   ensures [join-preserves-the-log-invariant] l != nil ==> logInv(l)
 //@   ensures [size-bounded-join-keeps-at-most-size-entries] err == nil && size >= 0 && otherLog != nil && otherLog.(*IPFSLog) != l && l.ID == otherLog.(*IPFSLog).ID ==> len(om(l.Entries).keys) <= size
 //@   ensures [every-head-is-an-entry-after-a-bounded-join] err == nil && size >= 0 && otherLog != nil && otherLog.(*IPFSLog) != l && l.ID == otherLog.(*IPFSLog).ID ==> forall k string :: has(om(l.heads).values, k) ==> has(om(l.Entries).values, k)
+//@   ensures [failed-join-changes-nothing] err != nil && l != nil ==> l.heads == old(l.heads) && l.Entries == old(l.Entries) && l.Next == old(l.Next) && l.Clock == old(l.Clock) && om(l.Entries).keys == old(om(l.Entries).keys) && om(l.Next).keys == old(om(l.Next).keys) && (forall k string :: has(om(l.Entries).values, k) == old(has(om(l.Entries).values, k)) && om(l.Entries).values[k] == old(om(l.Entries).values[k]) && has(om(l.Next).values, k) == old(has(om(l.Next).values, k)) && om(l.Next).values[k] == old(om(l.Next).values[k]))
+//@   ensures [join-admits-only-verified-authorised-entries-of-this-log] err == nil && size < 0 && l != nil ==> forall k string :: has(om(l.Entries).values, k) && !old(has(om(l.Entries).values, k)) ==> sigOK(ref(om(l.Entries).values[k])) && allowed(l.AccessController, om(l.Entries).values[k]) && om(l.Entries).values[k].LogID == l.ID
+//@   ensures [join-keeps-every-entry] err == nil && size < 0 && l != nil ==> forall k string :: old(has(om(l.Entries).values, k)) ==> has(om(l.Entries).values, k) && om(l.Entries).values[k] == old(om(l.Entries).values[k])
 //@   replay joinsize
 //@   loop 0
 //@     invariant validEntries(newItems) && fresh(newItems)
+//@     invariant [entries-checked-so-far-are-verified] err == nil ==> forall j int :: 0 <= j && j < $k ==> sigOK(ref(om(newItems).values[$r[j]])) && allowed(l.AccessController, om(newItems).values[$r[j]])
 //@     loopfresh
 //@   loop 1
 //@     invariant validEntries(newItems) && fresh(newItems) && fresh(om(newItems).values) && freshKeys(om(newItems))
 //@     invariant validEntries(l.Entries) && isOM(l.Next) && sepMaps(l)
+//@     invariant forall k string :: has(om(l.Entries).values, k) ==> (old(has(om(l.Entries).values, k)) && om(l.Entries).values[k] == old(om(l.Entries).values[k])) || (has(om(newItems).values, k) && om(l.Entries).values[k] == om(newItems).values[k])
+//@     invariant forall k string :: old(has(om(l.Entries).values, k)) ==> has(om(l.Entries).values, k) && om(l.Entries).values[k] == old(om(l.Entries).values[k])
 //@     loopmodifies om(l.Next).keys, mapof(om(l.Next).values), om(l.Entries).keys, mapof(om(l.Entries).values)
 //@   loop 2
 //@     invariant validEntries(newItems) && fresh(newItems) && fresh(om(newItems).values) && freshKeys(om(newItems))
 //@     invariant validEntries(l.Entries) && isOM(l.Next) && sepMaps(l) && validEntry(e)
+//@     invariant forall k string :: has(om(l.Entries).values, k) ==> (old(has(om(l.Entries).values, k)) && om(l.Entries).values[k] == old(om(l.Entries).values[k])) || (has(om(newItems).values, k) && om(l.Entries).values[k] == om(newItems).values[k])
+//@     invariant forall k string :: old(has(om(l.Entries).values, k)) ==> has(om(l.Entries).values, k) && om(l.Entries).values[k] == old(om(l.Entries).values[k])
 //@     loopmodifies om(l.Next).keys, mapof(om(l.Next).values), om(l.Entries).keys, mapof(om(l.Entries).values)
 //@   loop 3
 //@     invariant fresh(nextsFromNewItems)
